@@ -1,6 +1,7 @@
 use super::{AlongAxis, Axis, BoxConstraint, Layout, View, ViewContext, ViewLayout, ViewMutLayout};
 use crate::{
-    Cell, CellWrite, Error, Face, FaceAttrs, Position, Size, TerminalSurface, TerminalSurfaceExt,
+    Cell, CellWrite, Error, Face, FaceAttrs, Position, Size, Surface, TerminalSurface,
+    TerminalSurfaceExt,
 };
 use std::cmp::max;
 
@@ -62,11 +63,13 @@ impl View for ScrollBar {
         };
 
         let mut surf = layout.apply_to(surf);
+        // only the part of the bar that falls into the surface needs to be written
+        let major = major.min(self.direction.major(Size::new(surf.height(), surf.width())));
         let mut writer = surf.writer(ctx);
         let fg = Face::new(None, self.face.fg, FaceAttrs::EMPTY);
         let bg = Face::new(None, self.face.bg, FaceAttrs::EMPTY);
         for index in 0..major {
-            if index < offset || index >= offset + size {
+            if index < offset || index >= offset.saturating_add(size) {
                 writer.put_cell(Cell::new_char(bg, ' '));
             } else {
                 writer.put_cell(Cell::new_char(fg, ' '));
